@@ -37,6 +37,7 @@ class _Worker(Entity):
 
 
 class QueueDrv(Drv):
+    contention = True
     """Explicit Queue + QueueDriver + worker wiring; ops arrive directly or through one more hop."""
     family = "queueing"
     covers = ("Queue", "QueueDriver", "FIFOQueue")
@@ -75,6 +76,7 @@ class _DocServer(QueuedResource):
 
 
 class QueuedResourceDrv(Drv):
+    contention = True
     family = "queueing"
     covers = ("QueuedResource", "LIFOQueue")
     ops = ("work", "work_hop")
@@ -131,6 +133,7 @@ class _ServerDrv(Drv):
 
 
 class ServerFifoDrv(_ServerDrv):
+    contention = True
     covers = ("Server", "FixedConcurrency", "FIFOQueue")
 
 
@@ -145,6 +148,7 @@ class ServerPriorityDrv(_ServerDrv):
 
 
 class ServerWeightedDrv(_ServerDrv):
+    contention = True
     covers = ("Server", "WeightedConcurrency", "LIFOQueue")
 
     def policy(self):
@@ -198,6 +202,7 @@ class ServerAdaptiveLifoDrv(_ServerDrv):
 
 
 class AsyncServerDrv(Drv):
+    contention = True
     """CPU phase (serialized) + generator I/O phase (concurrent), both taking cfg.L; max_connections 2."""
     family = "server"
     covers = ("AsyncServer",)
@@ -235,6 +240,7 @@ class AsyncServerPlainDrv(Drv):
 
 
 class ThreadPoolDrv(Drv):
+    contention = True
     family = "server"
     covers = ("ThreadPool",)
     ops = ("task", "task_long")
